@@ -141,8 +141,32 @@ func runSend(a []string) *sendRun {
 	return r
 }
 
+// runSendStable: the model-compared lines assume the nominal schedule (poll i at i*wait/10). When the process was
+// starved and the loop made fewer polls than the schedule has before the deadline, and one of the polls it never
+// reached would have confirmed, the run says nothing about the code: repeat it (at most 4 times).
+func runSendStable(a []string) *sendRun {
+	var r *sendRun
+	for try := 0; try < 4; try++ {
+		r = runSend(a)
+		if r.tag != "err" || r.wait == 0 || len(r.chain.sent) == 0 {
+			return r
+		}
+		used, _ := storedSeqno(r.ver, a[7])
+		stalled := false
+		for i := len(r.chain.observed); i < 10 && i < len(r.chain.polls); i++ {
+			if p := r.chain.polls[i]; !p.err && p.seqno > used {
+				stalled = true
+			}
+		}
+		if !stalled {
+			return r
+		}
+	}
+	return r
+}
+
 func exWSend(a []string) string {
-	r := runSend(a)
+	r := runSendStable(a)
 	if len(r.chain.sent) == 0 {
 		return r.tag + " sent=0"
 	}
@@ -296,7 +320,7 @@ func goCodesDistinct(a []string) string {
 
 // go.send.prop <same args as w.send>: the clauses of the property evaluated on the implementation alone.
 func goSendProp(a []string) string {
-	r := runSend(a)
+	r := runSendStable(a)
 	ver := r.ver
 	state := a[7]
 	self := r.w.GetAddress()
